@@ -560,7 +560,7 @@ func render(p []placed) string {
 }
 
 func allSigs() []sig {
-	out := []sig{{0, 0}}
+	out := []sig{{0, 0}, {0, 4}, {0, 8}}
 	// denominators that are not powers of two count as well: the length is
 	// numerator x 32 / denominator (whole thirty-seconds)
 	for _, d := range []uint8{4, 8, 2, 16, 32, 1, 3, 6, 12, 5} {
@@ -742,7 +742,7 @@ func main() {
 		judge(s)
 		ctx.Finish("replay")
 	}
-	ctx.Assume("domain: numerators 1..24 over denominators 1,2,4,8,16,32 whose bar fits in 255 thirty-second notes; resolutions divisible by 8; durations end within the song; the order of simultaneous events is not judged (multisets per tick)")
+	ctx.Assume("domain: numerators 1..24 over denominators 1,2,3,4,5,6,8,12,16,32 (and the empty bars 0/4, 0/8) whose bar fits in 255 thirty-second notes; resolutions divisible by 8; durations end within the song; the order of simultaneous events is not judged (multisets per tick)")
 	n := len(allSigs())
 	ctx.Jobs("concurrent", 1, func(int) {
 		cp.Litmus(ctx)
